@@ -647,7 +647,7 @@ gen_sock_timeouts.last_count = 0
 def gen_sock_slow_reader(pid, f):
     noop = hdr(0x0a, opaque=0x0d0d0d0d)
     bigv = b'z' * 1000000
-    lines = ['send ' + f_set(b'big', bigv).hex(), 'recv 300', 'sendn 64 ' + f_key(0, b'big').hex(), 'sleep 200', 'conn_keep', 'send ' + noop.hex(), 'recv 1500']
+    lines = ['send ' + f_set(b'big', bigv).hex(), 'recv 300', 'sendn 64 ' + f_key(0, b'big').hex(), 'sleep 200', 'conn_keep', 'send ' + noop.hex(), 'recv 2500']
     want = (hdr(0x0a, opaque=0x0d0d0d0d, magic=0x81)).hex()
     def answered():
         import subprocess
@@ -655,7 +655,7 @@ def gen_sock_slow_reader(pid, f):
         recvs = [l[5:] for l in r.stdout.split('\n') if l.startswith('recv ')]
         return bool(recvs) and recvs[-1] == want
     if not answered() and not answered():
-        return {'kind': 'sock-last', 'lines': lines, 'expect_last_recv': want, 'what': 'one client requests a 1 MB item 64 times and never reads; a second connection sends noop and is not answered within 1.5 s',
+        return {'kind': 'sock-last', 'lines': lines, 'expect_last_recv': want, 'what': 'one client requests a 1 MB item 64 times and never reads; a second connection sends noop and is not answered within 2.5 s',
                 'required': 'a client that does not read its responses blocks only itself'}
     return None
 
@@ -847,7 +847,7 @@ BOUNDED_TWINS = {
                     'bound': 'three valid requests followed by one of 26 malformed requests, in one segment / in its own segment; a reader that pauses beyond the timeouts; nine connections under a limit of eight (oracle independent of the code)',
                     'what': 'everything a connection receives is a sequence of whole response frames, each correlated (opcode, opaque) with a request it sent, in order; a malformed request is never answered with success'},
     'slow_reader': {'gen': gen_sock_slow_reader, 'fn': 'the write path across connections (no contract relates two connections)',
-                    'bound': 'one scenario over TCP: a client requests a 1 MB item 64 times without reading; a second connection must get its noop answered within 1.5 s',
+                    'bound': 'one scenario over TCP: a client requests a 1 MB item 64 times without reading; a second connection must get its noop answered within 2.5 s',
                     'what': 'a client that does not read its responses blocks only itself'},
     'steps_lin': {'gen': gen_steps_lin, 'fn': 'RandomPolicy and MemcStore under interference (the interference contracts of unit conc cover MemoryStore only)',
                   'bound': 'two threads, get/set/delete/flush on one key, 4 initial states x 2 policies, thread 1 parked before each of its Cache-layer / clock calls (about 1000 schedules)',
